@@ -188,8 +188,13 @@ func runCase(rep *Report, w *world.World, c Case, judge JudgeFn) {
 			sort.Strings(got)
 		}
 		if strings.Join(got, "\n") != strings.Join(want, "\n") {
-			fmt.Fprintf(os.Stderr, "HARNESS ERROR: case %s does not reproduce deterministically:\n%v\nvs\n%v\n", c.Label, want, got)
-			os.Exit(2)
+			// the harness is deterministic (checked on the unchanged tree); what differs is the code under
+			// test, e.g. through Go's map iteration order. The violation was observed on the real code, so it
+			// is reported, marked as not reproducing on every execution of the same snapshot.
+			for i := range vs {
+				vs[i].Msg += " [nondeterministic: a re-execution of the same snapshot behaved differently]"
+			}
+			break
 		}
 	}
 	for _, v := range vs {
